@@ -52,7 +52,7 @@ Qed.
 
 (* ---- primitives ---- *)
 Lemma err_eof_ok c : err_eof c <> OutOfFuel.
-Proof. unfold err_eof. destruct (strict c); discriminate. Qed.
+Proof. unfold err_eof. destruct (strict c); [discriminate|]. destruct (neg_size_err c); discriminate. Qed.
 
 Lemma read_u8_good c l : goodL (len l) (read_u8 c l).
 Proof. destruct l as [|a l]; cbn; [apply goodL_err, err_eof_ok | apply goodL_ok; cbn; lia]. Qed.
@@ -70,9 +70,9 @@ Proof. destruct l as [|a [|b [|d [|e l]]]]; cbn; intros H; try discriminate. inv
 Lemma read_n_good c n l : goodL (len l) (read_n c n l).
 Proof.
   unfold read_n. destruct (n <? 0).
-  - destruct (strict c); [apply goodL_err; discriminate | apply goodL_ok; cbn; lia].
+  - destruct (strict c); [apply goodL_err; discriminate |]. destruct (neg_size_err c); [apply goodL_err; discriminate | apply goodL_ok; cbn; lia].
   - destruct (zlen l <? n).
-    + destruct (strict c); [apply goodL_err; discriminate | apply goodL_ok; cbn; lia].
+    + destruct (strict c); [apply goodL_err; discriminate |]. destruct (neg_size_err c); [apply goodL_err; discriminate | apply goodL_ok; cbn; lia].
     + apply goodL_ok. rewrite skipn_length. lia.
 Qed.
 
@@ -230,14 +230,14 @@ Theorem r_object_fuel : forall f c, robj_ok (r_object (S f) c) f.
 Proof.
   induction f as [|f IH]; intros c st Hlen.
   - destruct (inp st) as [|b l] eqn:E; [|cbn in Hlen; lia].
-    cbn [r_object]. rewrite E. split; [destruct (strict c); discriminate | intros v st' H; destruct (strict c); discriminate].
+    cbn [r_object]. rewrite E. split; [destruct (strict c); [discriminate|]; destruct (neg_size_err c); discriminate | intros v st' H; destruct (strict c); [discriminate|]; destruct (neg_size_err c); discriminate].
   - destruct (inp st) as [|byte1 l] eqn:E.
-    + cbn [r_object]. rewrite E. split; [destruct (strict c); discriminate | intros v st' H; destruct (strict c); discriminate].
+    + cbn [r_object]. rewrite E. split; [destruct (strict c); [discriminate|]; destruct (neg_size_err c); discriminate | intros v st' H; destruct (strict c); [discriminate|]; destruct (neg_size_err c); discriminate].
     + assert (Hl : (len l <= f)%nat) by (cbn in Hlen; lia).
       assert (Hr : robj_ok (r_object (S f) c) (len l)) by (apply (robj_ok_mono _ f); [exact Hl | apply IH]).
       change (r_object (S (S f)) c st) with
         (match inp st with
-         | [] => Err (if strict c then EOFErr else TypeErr)
+         | [] => Err (if strict c then EOFErr else if neg_size_err c then EOFErr else TypeErr)
          | byte1 :: l =>
              let flag := mask_flag c && negb (Z.land byte1 128 =? 0) in
              if strict c && flag && negb (flag_ref_ok c) then Err ValueErr else
